@@ -85,6 +85,7 @@ static long long rt_back_amount[16];
 static int n_rt_back = 0;
 
 static int stderr_errno = 0; /* plan: `stderrfail <errno>`: every write to fd 2 fails */
+static int stdout_errno = 0; /* plan: `stdoutfail <errno>`: every write to fd 1 fails */
 
 static char *fd_paths[MAX_FDS];
 static int fd_created[MAX_FDS];
@@ -220,6 +221,8 @@ static void load_plan(const char *path) {
             }
         } else if (!strcmp(line, "stderrfail")) {
             stderr_errno = atoi(arg);
+        } else if (!strcmp(line, "stdoutfail")) {
+            stdout_errno = atoi(arg);
         } else if (!strcmp(line, "dirseed")) {
             dir_seed = strtoull(arg, NULL, 10);
         } else if (!strcmp(line, "fault")) {
@@ -464,6 +467,12 @@ ssize_t write(int fd, const void *buf, size_t count) {
         errno = stderr_errno;
         return -1;
     }
+    if (active && fd == 1 && stdout_errno > 0) {
+        budget_check();
+        logev("write", "<stdout>", -stdout_errno);
+        errno = stdout_errno;
+        return -1;
+    }
     if (!active || fd < 0 || fd >= MAX_FDS || !fd_paths[fd] || !fd_created[fd])
         return real_write(fd, buf, count);
     const char *path = fd_paths[fd];
@@ -489,6 +498,12 @@ ssize_t writev(int fd, const struct iovec *iov, int iovcnt) {
         budget_check();
         logev("write", "<stderr>", -stderr_errno);
         errno = stderr_errno;
+        return -1;
+    }
+    if (active && fd == 1 && stdout_errno > 0) {
+        budget_check();
+        logev("write", "<stdout>", -stdout_errno);
+        errno = stdout_errno;
         return -1;
     }
     if (!active || fd < 0 || fd >= MAX_FDS || !fd_paths[fd] || !fd_created[fd])
